@@ -68,6 +68,15 @@ def check(env, rep, tier):
                     if ok:
                         found = True
                         break
+                if not found and not ctx.body["path"].endswith("::next"):
+                    # a loop that merely drives one of the crate's own character iterators (`for c in unquote { .. }`): it ends
+                    # when that iterator does, and the iterator's progress is judged on its `next` (loops there, C16.6 / C17.7)
+                    for b_ in ctx.info.loops.get(h, ()):
+                        t_ = ctx.body["blocks"][b_]["term"]
+                        if t_["k"] == "call" and not ctx.body["blocks"][b_].get("cleanup"):
+                            p_ = (t_.get("resolved") or {}).get("path", "") or ""
+                            if p_.startswith("<link_format::") and p_.endswith("core::iter::traits::iterator::Iterator>::next"):
+                                found = True
                 loops.append((ctx.body["path"], h, found))
             I.loop_hooks.append(loop_hook)
             st = State()
